@@ -102,6 +102,16 @@ CHECKS["C10"] = dict(
     design_ref="DESIGN.md section 4 C10",
     note=TB)
 
+CHECKS["C07"] = dict(
+    category="other",
+    technique="regex-AST analysis of the escape tokenizer and literal terminals, table comparison against CEL's escape table, radix/offset and delimiter-slice extraction, literal-language probe of generated code",
+    text="Decides necessary conditions of literal decoding: the escape tokenizer matches every character; the escape table and the numeric escape forms are CEL's and "
+         "are decoded with the matching offset and radix; delimiters are removed by prefix-consistent fixed slices only; both engines map each literal terminal to the "
+         "same constructor; characters of bytes literals are UTF-8 encoded; numeric spellings admitted by the lexer are not re-lexed by Python in generated code. "
+         "That decoding composes to the identity on all strings is not decided.",
+    design_ref="DESIGN.md section 4 C07",
+    note=TB)
+
 PENDING = {}  # property id -> reason, for properties not claimed
 
 def main():
